@@ -336,6 +336,9 @@ async fn prepare(req: &mut Request, ccx: &CallContext<'_>) -> S3Result<Prepare> 
             // invalidate the original content length
             if let Some(val) = req.headers.get_mut(header::CONTENT_LENGTH) {
                 *val = fmt_content_length(decoded_content_length.unwrap_or(0));
+            } else if let Some(len) = decoded_content_length {
+                // a chunk-signed upload sent without `Content-Length` still declares the length of its payload
+                req.headers.insert(header::CONTENT_LENGTH, fmt_content_length(len));
             }
             if let Some(val) = &mut content_length {
                 *val = 0;
